@@ -145,4 +145,172 @@ def clistTyOK : CList → Bool
   | .cons t c rest => constTyOK t c && clistTyOK rest
 end
 
+
+/-! ### modules -/
+
+inductive Body where
+  | opaq
+  | struct (packed : Bool) (fs : TyList)
+  deriving Inhabited
+
+structure TypeDef where
+  name : Bytes
+  body : Body
+
+structure Global where
+  name : Bytes
+  isConst : Bool            -- `constant` instead of `global`
+  ty : Ty
+  init : Const
+
+structure Mod where
+  typedefs : List TypeDef
+  globals : List Global
+
+/-- what the external lexer/grammar delivers per top-level entity: the identifier token and the text of the
+    parts that are read by the readers of this file -/
+inductive Line where
+  | typedef (tok : Bytes) (body : Bytes)                      -- `tok = type body`
+  | global (tok : Bytes) (isConst : Bool) (rest : Bytes)      -- `tok = global|constant rest`, rest = `T V`
+
+def sOpaque : Bytes := [111, 112, 97, 113, 117, 101]
+
+def bodyString : Body → Bytes
+  | .opaq => sOpaque
+  | .struct p fs => tyString (.struct p fs)
+
+def printTok (useHex : Int → Bool) (m : Mod) : List Line :=
+  m.typedefs.map (fun d => Line.typedef (Enc.typeName d.name) (bodyString d.body)) ++
+  m.globals.map (fun g => Line.global (Enc.globalName g.name) g.isConst (tyString g.ty ++ [32] ++ constIdent useHex g.ty g.init))
+
+/-- asm/type.go getTypeName on the name read after `%` (see LlirModel/Enc.lean) -/
+def respell (n : Bytes) : Bytes := Enc.getTypeName (.name n)
+
+mutual
+def respellTy : Ty → Ty
+  | .ptr e as => .ptr (respellTy e) as
+  | .vec s n e => .vec s n (respellTy e)
+  | .arr n e => .arr n (respellTy e)
+  | .struct p fs => .struct p (respellTys fs)
+  | .named n => .named (respell n)
+  | .func r ps v => .func (respellTy r) (respellTys ps) v
+  | t => t
+def respellTys : TyList → TyList
+  | .nil => .nil
+  | .cons t ts => .cons (respellTy t) (respellTys ts)
+end
+
+mutual
+def respellConst : Const → Const
+  | .struct p fs => .struct p (respellCList fs)
+  | .arr es => .arr (respellCList es)
+  | .vec es => .vec (respellCList es)
+  | c => c
+def respellCList : CList → CList
+  | .nil => .nil
+  | .cons t c rest => .cons (respellTy t) (respellConst c) (respellCList rest)
+end
+
+def decodeTypedefName (tok : Bytes) : Option Bytes :=
+  match Enc.localIdent tok with
+  | .ok i => some (Enc.getTypeName i)
+  | .panic => none
+
+def decodeBody (s : Bytes) : Option Body :=
+  if s == sOpaque then some .opaq
+  else match TyParse.parse s with
+    | some (.struct p fs) => some (.struct p (respellTys fs))
+    | _ => none                       -- other bodies (type aliases) are outside this fragment
+
+def decodeGlobal (tok : Bytes) (isConst : Bool) (rest : Bytes) : Option Global :=
+  match Enc.globalIdent tok with
+  | .ok (.name n) =>
+    (match TyParse.parseTy (tyFuel rest) rest with
+     | some (t, 32 :: r1) =>
+       (match parseConst (r1.length + 1) t r1 with
+        | some (c, []) => if constTyOK t c then some ⟨n, isConst, respellTy t, respellConst c⟩ else none
+        | _ => none)
+     | _ => none)
+  | _ => none
+
+def collect : List Line → Option (List TypeDef × List Global)
+  | [] => some ([], [])
+  | .typedef tok body :: rest =>
+    match decodeTypedefName tok, decodeBody body, collect rest with
+    | some n, some b, some (ts, gs) => some (⟨n, b⟩ :: ts, gs)
+    | _, _, _ => none
+  | .global tok k r :: rest =>
+    match decodeGlobal tok k r, collect rest with
+    | some g, some (ts, gs) => some (ts, g :: gs)
+    | _, _ => none
+
+/-! named types used anywhere must be defined by the module -/
+mutual
+def tyNames : Ty → List Bytes
+  | .ptr e _ => tyNames e
+  | .vec _ _ e => tyNames e
+  | .arr _ e => tyNames e
+  | .struct _ fs => tysNames fs
+  | .named n => [n]
+  | .func r ps _ => tyNames r ++ tysNames ps
+  | _ => []
+def tysNames : TyList → List Bytes
+  | .nil => []
+  | .cons t ts => tyNames t ++ tysNames ts
+end
+
+mutual
+def constNames : Const → List Bytes
+  | .struct _ fs => clistNames fs
+  | .arr es => clistNames es
+  | .vec es => clistNames es
+  | _ => []
+def clistNames : CList → List Bytes
+  | .nil => []
+  | .cons t c rest => tyNames t ++ constNames c ++ clistNames rest
+end
+
+def bodyNames : Body → List Bytes
+  | .opaq => []
+  | .struct _ fs => tysNames fs
+
+def usedNames (ts : List TypeDef) (gs : List Global) : List Bytes :=
+  ts.flatMap (fun d => bodyNames d.body) ++ gs.flatMap (fun g => tyNames g.ty ++ constNames g.init)
+
+def hasDup : List Bytes → Bool
+  | [] => false
+  | x :: xs => xs.contains x || hasDup xs
+
+/-- type definitions in natural-sort order of their names (asm/translate.go) -/
+def sortDefs (ts : List TypeDef) : List TypeDef :=
+  (Natsort.sort (ts.map (·.name))).filterMap fun n => ts.find? (·.name == n)
+
+/-- the parser: decode every line, reject duplicate and undefined names, assemble -/
+def translateTok (ls : List Line) : Option Mod :=
+  match collect ls with
+  | none => none
+  | some (ts, gs) =>
+    if hasDup (ts.map (·.name)) || hasDup (gs.map (·.name)) then none
+    else if (usedNames ts gs).all (fun n => (ts.map (·.name)).contains n) then some ⟨sortDefs ts, gs⟩
+    else none
+
+def canon (m : Mod) : Mod := ⟨sortDefs m.typedefs, m.globals⟩
+
+/-! ### text (byte-exact with `Module.String()`) -/
+
+def sType : Bytes := [32, 61, 32, 116, 121, 112, 101, 32]                     -- " = type "
+def sGlobal : Bytes := [32, 61, 32, 103, 108, 111, 98, 97, 108, 32]           -- " = global "
+def sConstant : Bytes := [32, 61, 32, 99, 111, 110, 115, 116, 97, 110, 116, 32]   -- " = constant "
+
+def flattenLine : Line → Bytes
+  | .typedef tok body => tok ++ sType ++ body ++ [10]
+  | .global tok k rest => tok ++ (if k then sConstant else sGlobal) ++ rest ++ [10]
+
+def flatten (ls : List Line) : Bytes :=
+  let tys := ls.filter (fun l => match l with | .typedef _ _ => true | _ => false)
+  let gls := ls.filter (fun l => match l with | .global _ _ _ => true | _ => false)
+  let a := (tys.map flattenLine).flatten
+  let b := (gls.map flattenLine).flatten
+  if a.isEmpty || b.isEmpty then a ++ b else a ++ [10] ++ b
+
 end Llir.Core2
